@@ -29,7 +29,7 @@ META = dict(
     functions=["NonnegMean.alpha_mart", "betting_mart", "kaplan_kolmogorov", "kaplan_markov", "kaplan_wald", "wald_sprt", "sjm",
                "fixed_alternative_mean", "shrink_trunc", "optimal_comparison", "fixed_bet", "agrapa", "welford_mean_var"],
     explanation=__doc__,
-    bounds={"quick": {"lemma layer": "n <= 3, N in {n, n+3, 50, inf} and symbolic N >= n (n <= 2), ut in plur/super/cmp10", "direct layer": "N = 2 continuous; N = 3 lattice populations {0, u/2, u} with u = 1, symbolic parameters and alpha (not kaplan_kolmogorov / optimal_comparison)"},
+    bounds={"quick": {"lemma layer": "n <= 3, N in {n, n+3, 50, inf} and symbolic N >= n (n <= 2), ut in plur/super/cmp10", "direct layer": "N = 2 continuous; N = 3 lattice populations {0, u/2, u} with u = 1, symbolic parameters and alpha (not kaplan_kolmogorov / optimal_comparison); IID laws on lattice atoms, n = 2, 3 draws"},
             "thorough": {"lemma layer": "n <= 4, N grid + symbolic N (n <= 3), all ut", "direct layer": "N = 2 continuous, every ut (two draws: not shrink_trunc / optimal_comparison, whose queries stay undecided); lattice populations N = 3 with u in {1, 3/4} (not shrink_trunc), N = 4 for the fixed bet"}},
     outside=["histories longer than n", "floating-point rounding", "Ville's inequality and 'affine => E f(X) = f(E X)' (not mechanised)",
              "direct layer beyond N = 2 (continuous N = 3 was probed: most queries unknown)"],
@@ -92,7 +92,22 @@ def cells(tier):
                 fixed = {"d": 1, "f": 0} if m[2] == "shrink_trunc" else {}
                 for pop in lattice_pops(N, ut):
                     out.append(dict(kind="lattice", method=list(m), n=N, N=N, ut=ut, ro=True, fixed=fixed, pop=[str(v) for v in pop]))
+    # the same for independent draws (N = inf): laws on lattice atoms with rational weights and mean <= t
+    for m in nnm.METHODS:
+        if m[0] == "kaplan_kolmogorov" or m[2] == "optimal_comparison":
+            continue
+        if m[2] in ("shrink_trunc", "agrapa") and tier == "quick":
+            continue
+        for law in IID_LAWS:
+            for n in ((2, 3) if tier != "quick" or m[2] not in ("shrink_trunc", "agrapa") else (2,)):
+                fixed = {"d": 1, "f": 0} if m[2] == "shrink_trunc" else {}
+                out.append(dict(kind="iid", method=list(m), n=n, N="inf", ut="plur", ro=True, fixed=fixed, law=law))
     return out
+
+
+# (atoms as multiples of u, weights): all have mean <= t = u/2
+IID_LAWS = [dict(atoms=["0", "1"], weights=["1/2", "1/2"]), dict(atoms=["0", "1/2", "1"], weights=["1/4", "1/2", "1/4"]),
+            dict(atoms=["0", "1"], weights=["3/4", "1/4"]), dict(atoms=["1/4", "3/4"], weights=["1/2", "1/2"])]
 
 
 def lattice_pops(N, ut):
@@ -361,10 +376,61 @@ def _lattice(cell, stats):
     return findings, samples, st
 
 
+def _iid(cell, stats):
+    ex = core.Explorer(stats=stats)
+    findings, samples = [], []
+    st = {'reach': 0}
+    n = cell["n"]
+    u, t = nnm.UT[cell["ut"]]
+    atoms = [F(a) * u for a in cell["law"]["atoms"]]
+    wts = [F(w) for w in cell["law"]["weights"]]
+
+    def harness(ex):
+        inst = nnm.build(ex, cell)
+        alpha = z3.Real("alpha")
+        ex.assume(z3.And(alpha > 0, alpha < 1))
+        terms = []
+        try:
+            for seq in itertools.product(range(len(atoms)), repeat=n):
+                pr = F(1)
+                for i in seq:
+                    pr *= wts[i]
+                p, hist = merge.merged_call(inst.T.test, npmodel.Arr([atoms[i] for i in seq]))
+                pm = EV.of(npmodel.min(npmodel.Arr([EV.of(p)] + [EV.of(h) for h in hist])))
+                terms.append((pr, pm))
+        except Exception as e:      # noqa
+            r, m = ex.witness()
+            if r == 'sat':
+                d = nnm.model_inputs(m, inst)
+                d["x"] = list(atoms)
+                findings.append(dict(clause="exception", cell=cell, inputs=d, observed=repr(e)))
+            elif r != 'unsat':
+                ex.stats.inconclusive += 1
+            return
+        st['reach'] += 1
+        prob = z3.Sum([z3.If(_b(Or(pm.nan, (pm <= EV(alpha)).e)), R(pr), 0) for pr, pm in terms])
+        r, mdl = ex.prove(prob <= alpha, timeout_ms=60000)
+        if r == 'sat':
+            d = nnm.model_inputs(mdl, inst)
+            d["x"] = list(atoms)
+            d["alpha"] = model_value(mdl, alpha)
+            findings.append(dict(clause="exact probability over all IID sequences that the p-value is <= alpha exceeds alpha", cell=cell, inputs=d))
+        if not samples:
+            r, mdl = ex.witness(timeout_ms=3000)
+            if r == 'sat':
+                d = nnm.model_inputs(mdl, inst)
+                samples.append(dict(cell="iid " + nnm.method_id(cell["method"]) + f" n={n} law {cell['law']}", sequences=len(terms),
+                                    reachable_with={k: v for k, v in d.items() if k != 'x'}))
+    ex.run(harness)
+    return findings, samples, st
+
+
 def run_cell(cell):
     stats = core.Stats()
     notes = []
-    if cell["kind"] == "lattice":
+    if cell["kind"] == "iid":
+        findings, samples, st = _iid(cell, stats)
+    elif cell["kind"] == "lattice":
         findings, samples, st = _lattice(cell, stats)
     elif cell["kind"] == "generic":
         findings, samples, st = _generic(cell, stats)
@@ -461,6 +527,12 @@ def replay(f):
     u, t = (F(v) for v in nnm.UT[cell["ut"]])
     xs = [F(str(v)) if not isinstance(v, F) else v for v in inp["x"]]
     xs = [F(float(v)) for v in xs]         # the values the real code will see
+    if cell["kind"] == "iid":
+        atoms = [float(F(a) * u) for a in cell["law"]["atoms"]]
+        w = excess_iid(cell, inp, atoms, [F(x) for x in cell["law"]["weights"]], cell["n"])
+        if w:
+            return dict(reproduced=True, detail=f"IID law atoms={atoms} weights={cell['law']['weights']} n={cell['n']}: P(p <= {w[0]!r}) = {float(w[1])}")
+        return dict(reproduced=False, detail="no probability excess over the IID sequences")
     if cell["kind"] == "lattice":
         w = excess_finite(cell, inp, [float(v) for v in xs], cell["N"])
         if w:
